@@ -47,7 +47,8 @@ func (p *stagePlugin) PostReadRequest(ctx context.Context, r *protocol.Message, 
 }
 func (p *stagePlugin) PreCall(ctx context.Context, serviceName, methodName string, args interface{}) (interface{}, error) {
 	if p.preCall {
-		return args, errors.New("rejected by the pre-call plugin")
+		// a plugin that rejects has no arguments to hand on
+		return nil, errors.New("rejected by the pre-call plugin")
 	}
 	return args, nil
 }
